@@ -777,5 +777,5 @@ static void one_case(vh::Ctx & c, uint64_t idx)
 
 int main(int argc, char ** argv)
 {
-  return vh::run(argc, argv, "C18", {300000, 50000000}, one_case, flush_tally);
+  return vh::run(argc, argv, "C18", {1000000, 50000000}, one_case, flush_tally);
 }
